@@ -1,0 +1,77 @@
+//go:build verif
+
+package openapi3
+
+// Contracts for document validation (C04). Comment-only; read by /verif/engine (govc).
+
+// Every kind of object that has a Validate method is reached by the root validation.
+//@ walkcomplete @C04 (*T).Validate Validate
+
+// ---- parameter serialisation defaults (OpenAPI 3.0.3, Parameter Object, "style" / "explode") ----
+// style defaults: query -> form, path -> simple, header -> simple, cookie -> form;
+// explode defaults: true when the style is form, false otherwise (deepObject is only defined with
+// explode and keeps it).
+//@ spec knownIn(in string) bool := in == "path" || in == "query" || in == "header" || in == "cookie"
+//@ spec defaultStyle(in string) string := (in == "query" || in == "cookie") ? "form" : "simple"
+//@ spec effStyle(p *Parameter) string := p.Style != "" ? p.Style : defaultStyle(p.In)
+//@ spec defaultExplode(p *Parameter) bool :=
+//@     (p.In == "query" || p.In == "cookie") ? (effStyle(p) == "form" || effStyle(p) == "deepObject") : false
+//@ spec effExplode(p *Parameter) bool := p.Explode != nil ? *p.Explode : defaultExplode(p)
+
+//@ func (*Parameter).SerializationMethod
+//@   requires parameter != nil
+//@   modifies nothing
+//@   ensures [known-location] (result.1 == nil) <==> knownIn(parameter.In)
+//@   ensures [defaults] result.1 == nil ==> result.0 != nil && result.0.Style == effStyle(parameter) && result.0.Explode == effExplode(parameter)
+//@   tag C04 C05
+
+// ---- the style table (OpenAPI 3.0.3, "Style Values"): which style may appear in which location
+//@ spec styleAllowed(in string, style string, explode bool) bool :=
+//@     (in == "path" && (style == "simple" || style == "label" || style == "matrix"))
+//@  || (in == "query" && (style == "form" || style == "spaceDelimited" || style == "pipeDelimited" || (style == "deepObject" && explode)))
+//@  || (in == "header" && style == "simple")
+//@  || (in == "cookie" && style == "form")
+
+// verdicts of the children are abstract here; each child validator has its own contract
+//@ spec contentOK(c Content) bool
+//@ spec schemaRefOK(s *SchemaRef) bool
+//@ spec extensionsOK(e map[string]any) bool
+//@ spec examplesOK(p *Parameter) bool
+
+//@ spec paramRules(p *Parameter) bool :=
+//@     p.Name != "" && knownIn(p.In) && (p.In == "path" ==> p.Required)
+//@  && styleAllowed(p.In, effStyle(p), effExplode(p))
+//@  && ((p.Schema == nil) != (len(p.Content) == 0))
+//@  && len(p.Content) <= 1
+
+//@ func WithValidationOptions
+//@   modifies nothing
+//@ func getValidationOptions
+//@   modifies nothing
+//@   ensures result != nil
+//@ func (Content).Validate
+//@   modifies *
+//@   preserves @C04 Parameter.*, SerializationMethod.*, *bool
+//@   defines (result == nil) <==> contentOK(content)
+//@ func (*SchemaRef).Validate
+//@   modifies *
+//@   preserves @C04 Parameter.*, SerializationMethod.*, *bool
+//@   defines (result == nil) <==> schemaRefOK(x)
+//@ func validateExtensions
+//@   modifies *
+//@   preserves @C04 Parameter.*, SerializationMethod.*, *bool
+//@   defines (result == nil) <==> extensionsOK(extensions)
+//@ func validateExampleValue
+//@   modifies *
+//@   preserves @C04 Parameter.*, SerializationMethod.*, *bool
+//@ func (*ExampleRef).Validate
+//@   modifies *
+//@   preserves @C04 Parameter.*, SerializationMethod.*, *bool
+
+//@ func (*Parameter).Validate
+//@   requires parameter != nil
+//@   modifies *
+//@   ensures [rules] result == nil ==> old(paramRules(parameter))
+//@   ensures [children] result == nil ==> (old(parameter.Content) != nil ==> contentOK(old(parameter.Content))) && (old(parameter.Schema) != nil ==> schemaRefOK(old(parameter.Schema))) && extensionsOK(old(parameter.Extensions))
+//@   option safety-tags C20
+//@   tag C04
